@@ -158,6 +158,11 @@ def run(chk, tier):
         return
     T3, T2, T2S, TGET, TLIST, TMAX = T
     download_object(chk, prog, TGET)
+    # the archive key is built from the identifier's own site and date (C16's parsers); a real-time download hands its bytes to
+    # Chunk::new, which must accept every object and keep its bytes whole (C05)
+    from rules import c16, c05
+    c16.archive_parsers(chk, prog)
+    c05.chunk_sniffing(chk, prog)
     last_modified(chk, prog)
     list_objects(chk, prog, TLIST, TMAX)
     # ---- archive listing
